@@ -37,6 +37,9 @@ func vrunThreads()                {}
 func vyield()                     {}
 func vwait()                      {}
 func vthreadEnd()                 {}
+func vexitThread()                {}
+func vblock()                     {}
+func vblockUntil(pred func() bool) {}
 func vthreadID() int              { return -1 }
 func vschedule() string           { return "" }
 func vuf32(tag string, d float64) float32 { return float32(d) }
@@ -419,6 +422,14 @@ func vrunThreads() {
 	}
 	if panicked != nil {
 		panic(panicked)
+	}
+}
+func vexitThread()      { runtime.Goexit() }
+func vblock()           { vgate("block"); time.Sleep(time.Millisecond) }
+func vblockUntil(pred func() bool) {
+	vgate("block")
+	for i := 0; i < 5000 && !pred(); i++ {
+		time.Sleep(time.Millisecond)
 	}
 }
 func vyield()           { vgate("yield") }
